@@ -351,10 +351,11 @@ def register(generators, gm):
             for n in ("Stdout", "Stderr"):
                 if not re.search(r"pub\s+type\s+%s\s*=\s*AutoStream\s*<\s*std::io::%s\s*>\s*;" % (n, n), lib):
                     raise TranslateError("lib.rs: `pub type %s = AutoStream<std::io::%s>;` not found" % (n, n))
-            out.append(translate(lib, v_lib(), [
-                ("stdout", None, "g_stdout", {}),
-                ("stderr", None, "g_stderr", {}),
-            ], "", "", shapes))
+            # one at a time: the emitter resolves a call by its LAST path segment among the translated functions first, so
+            # with `stdout` in the shapes a `std::io::stdout()` inside `stderr()` would be read as the crate's own stdout()
+            for fname in ("stdout", "stderr"):
+                out.append(translate(lib, v_lib(), [(fname, None, "g_" + fname, {})], "", "", shapes))
+                shapes.pop(fname)
             return "\n".join(out) + "\n"
         except TranslateError as e:
             raise gm.GenError(str(e))
